@@ -1,0 +1,29 @@
+//go:build verif
+
+package blocktransactions
+
+// Contracts for gocv (contract-based deductive verification, /verif).
+
+// ---- the committer writes every batch it is handed (C18) -------------------------------------------
+// A task's batch holds the combined-layout rows of the blocks a worker ingested - also of blocks
+// without transactions. Whatever the counters say, the batch is written (synced) before its slot is
+// handed back; on a failed write the slot is kept and the error returned.
+//@ extern func github.com/NethermindEth/juno/db.Batch.Write
+//@   logged as BatchWrite
+//@ extern func github.com/NethermindEth/juno/db.Batch.Size
+//@ extern func github.com/NethermindEth/juno/migration/semaphore.(ResourceSemaphore).Put
+//@   logged as SlotPut
+//@ func (*counter).log
+//@   trusted
+//@ extern func go.uber.org/zap.Int
+//@ func (*committer).Run
+//@   props C18
+//@   arith int
+//@   nosafe
+//@   requires c != nil && task.batch != nil
+//@   modifies *
+//@   assigns calls_BatchWrite, calls_SlotPut
+//@   callsite Write@*: the_tasks_batch: $0 == task.batch
+//@   ensures always_written: calls_BatchWrite == old(calls_BatchWrite) + 1
+//@   ensures slot_back_only_after_write: calls_SlotPut != old(calls_SlotPut) ==> result == nil && calls_SlotPut == old(calls_SlotPut) + 1
+//@   ensures success_returns_slot: result == nil ==> calls_SlotPut == old(calls_SlotPut) + 1
